@@ -520,6 +520,10 @@ func (g *Up4Gen) ModifyKind(s *usess, kind int) {
 			nf.SMReq = nf.HasFP // the flags IE is present without SNDEM
 		}
 
+		if g.EndMarkers && nf.HasFP && g.R.Intn(3) == 0 { // other bits of the flags octet (DROBU, QAURR, spare)
+			nf.SMReq, nf.SMReqOther = true, []uint8{0x01, 0x04, 0x05, 0x80, 0x85}[g.R.Intn(5)]
+		}
+
 		for _, f := range s.flows {
 			x := nf
 			x.ID = f.dlFar
